@@ -23,8 +23,8 @@ type N struct {
 	M map[string]int
 }
 
-func f1() {}
-func f2() {}
+func f1()     {}
+func f2()     {}
 func f3() int { return 1 }
 
 type domain struct {
@@ -55,7 +55,7 @@ func domains() []domain {
 				return int64(r.Intn(4))
 			case 1:
 				if signed {
-					return []int64{-1, -(1 << (bits - 1)), 1<<(bits-1) - 1, 0, 1 << (bits - 2), 1<<(bits-2) + 1, (1 << (bits - 1) - 1) - 1, 1 << uint(min(bits-2, 53)), 1<<uint(min(bits-2, 53)) + 1}[r.Intn(9)]
+					return []int64{-1, -(1 << (bits - 1)), 1<<(bits-1) - 1, 0, 1 << (bits - 2), 1<<(bits-2) + 1, (1<<(bits-1) - 1) - 1, 1 << uint(min(bits-2, 53)), 1<<uint(min(bits-2, 53)) + 1}[r.Intn(9)]
 				}
 				return 0
 			case 2:
@@ -113,7 +113,9 @@ func domains() []domain {
 	add("struct", S{}, func(r *vmon.Rng) interface{} {
 		return pick(r, S{}, S{1, "a", nil}, S{1, "a", []int{}}, S{1, "a", []int{1}}, S{1, "a", []int{1}}, S{2, "a", []int{1}}, S{1, "b", []int{1, 2}})
 	})
-	add("array", [3]int{}, func(r *vmon.Rng) interface{} { return pick(r, [3]int{}, [3]int{1, 2, 3}, [3]int{1, 2, 4}, [3]int{0, 0, 1}) })
+	add("array", [3]int{}, func(r *vmon.Rng) interface{} {
+		return pick(r, [3]int{}, [3]int{1, 2, 3}, [3]int{1, 2, 4}, [3]int{0, 0, 1})
+	})
 	add("slice", []int(nil), func(r *vmon.Rng) interface{} {
 		return pick(r, []int(nil), []int{}, []int{1}, []int{1}, []int{1, 2}, []int{2, 1}, make([]int, 0, 8))
 	})
